@@ -44,6 +44,7 @@ type c20Plan struct {
 	Prior    bool  `json:"prior"`              // the original machines completed another round before the one that is re-initialised
 	Restart  bool  `json:"restart,omitempty"`  // the re-initialised airgapped machines are restarted (reopen + documented log replay) before they are asked to sign
 	DupInit  bool  `json:"dup_init,omitempty"` // the board re-delivers the round's opening proposal once more after the ceremony has begun (live nodes refuse the copy)
+	Aborted  int   `json:"aborted,omitempty"`  // the dump begins with an earlier attempt of the same participants that was aborted: 1 = an unreadable commitment (every machine reports a deals-step error), 2 = an undecryptable deal (its recipient reports a responses-step error)
 }
 
 func c20Gen(rt *rapid.T) c20Plan {
@@ -51,7 +52,71 @@ func c20Gen(rt *rapid.T) c20Plan {
 	return c20Plan{N: nt[0], T: nt[1], Tape: rapid.SliceOfN(rapid.IntRange(0, 1000), 0, 60).Draw(rt, "tape"),
 		Batches: rapid.IntRange(0, 2).Draw(rt, "batches"), Junk: rapid.IntRange(0, 3).Draw(rt, "junk"),
 		Adapt014: rapid.Bool().Draw(rt, "adapt"), Proposer: rapid.IntRange(0, nt[0]-1).Draw(rt, "proposer"), Prior: rapid.IntRange(0, 2).Draw(rt, "prior") == 0, CLI: rapid.IntRange(0, 3).Draw(rt, "cli") == 0,
-		DupInit: rapid.IntRange(0, 3).Draw(rt, "dupInit") == 0, Restart: rapid.Bool().Draw(rt, "restartAfter")}
+		DupInit: rapid.IntRange(0, 3).Draw(rt, "dupInit") == 0, Restart: rapid.Bool().Draw(rt, "restartAfter"),
+		Aborted: rapid.SampledFrom([]int{0, 0, 0, 1, 2}).Draw(rt, "aborted")}
+}
+
+// c20AbortedAttempt runs, on the original board, a key generation of the same participants that one faulty airgapped
+// machine makes fail: its messages stay in the dump, and every step that failed then fails again when the dump is replayed.
+func c20AbortedAttempt(w *world.World, p c20Plan) error {
+	round, err := w.StartDKG(p.N-1, p.T, nil)
+	if err != nil {
+		return err
+	}
+	bad := p.Proposer % p.N
+	for r := 0; r < 100; r++ {
+		progress := w.PollAll()
+		for i := range w.Nodes {
+			ops, err := w.Nodes[i].Operations()
+			if err != nil {
+				return err
+			}
+			for _, op := range ops {
+				alter := func(res *types.Operation) {}
+				if i == bad && p.Aborted == 1 && string(op.Type) == "state_dkg_commits_await_confirmations" {
+					alter = func(res *types.Operation) {
+						for k := range res.ResultMsgs {
+							var req requests.DKGProposalCommitConfirmationRequest
+							if json.Unmarshal(res.ResultMsgs[k].Data, &req) == nil {
+								req.Commit = []byte(`"these are not commitments"`)
+								res.ResultMsgs[k].Data, _ = json.Marshal(req)
+							}
+						}
+					}
+				}
+				if i == bad && p.Aborted == 2 && string(op.Type) == "state_dkg_deals_await_confirmations" {
+					alter = func(res *types.Operation) {
+						for k := range res.ResultMsgs {
+							var req requests.DKGProposalDealConfirmationRequest
+							if res.ResultMsgs[k].RecipientAddr != w.Names[i] && json.Unmarshal(res.ResultMsgs[k].Data, &req) == nil && len(req.Deal) > 8 {
+								req.Deal = append([]byte(nil), req.Deal...)
+								req.Deal[len(req.Deal)/2] ^= 0x40
+								res.ResultMsgs[k].Data, _ = json.Marshal(req)
+								break
+							}
+						}
+					}
+				}
+				if string(op.Type) == "state_sig_proposal_await_participants_confirmations" {
+					if _, err := w.Answer(i, op); err != nil {
+						return err
+					}
+				} else if _, err := w.AnswerWith(i, op, alter); err != nil {
+					return err
+				}
+				progress++
+			}
+		}
+		if progress == 0 {
+			break
+		}
+	}
+	for i := range w.Nodes {
+		if s := w.StateOf(i, round); !strings.Contains(s, "canceled") {
+			return fmt.Errorf("the attempt that was to be aborted left node %d in %q", i, s)
+		}
+	}
+	return nil
 }
 
 type c20Orig struct {
@@ -106,6 +171,14 @@ func c20Original(p c20Plan, root string) (o c20Orig) {
 		time.Sleep(time.Hour)
 	}
 	priorLen := w.Board.Len()
+	if p.Aborted > 0 {
+		if err := c20AbortedAttempt(w, p); err != nil {
+			o.Err = fmt.Errorf("aborted attempt: %w", err)
+			return
+		}
+		time.Sleep(time.Hour)
+	}
+	roundStart := w.Board.Len()
 	round, err := w.StartDKG(0, p.T, nil)
 	if err != nil {
 		o.Err = err
@@ -115,11 +188,11 @@ func c20Original(p c20Plan, root string) (o c20Orig) {
 	junk := p.Junk
 	dupPending := p.DupInit
 	redeliver := func() {
-		if !dupPending || w.Board.Len() < priorLen+2 {
+		if !dupPending || w.Board.Len() < roundStart+2 {
 			return
 		}
 		dupPending = false
-		m := w.Board.From(priorLen)[0]
+		m := w.Board.From(roundStart)[0]
 		w.Board.Inject(storage.Message{DkgRoundID: m.DkgRoundID, Event: m.Event, Data: m.Data, Signature: m.Signature, SenderAddr: m.SenderAddr, RecipientAddr: m.RecipientAddr})
 	}
 	for _, c := range p.Tape {
@@ -507,7 +580,7 @@ func c20Run(t *testing.T, st *vstat.Stats, p c20Plan) *viol {
 		obs.Viol.Key = "reinit-accepts-forged-message-from-log"
 	}
 	if obs.Viol != nil {
-		obs.Viol.What = fmt.Sprintf("n=%d t=%d adapt014=%v recorded=%v batches=%d junk=%d: %s", p.N, p.T, p.Adapt014, p.Recorded, p.Batches, p.Junk, obs.Viol.What)
+		obs.Viol.What = fmt.Sprintf("n=%d t=%d adapt014=%v recorded=%v batches=%d junk=%d aborted-attempt=%d: %s", p.N, p.T, p.Adapt014, p.Recorded, p.Batches, p.Junk, p.Aborted, obs.Viol.What)
 		return obs.Viol
 	}
 	st.Class(fmt.Sprintf("adapt014=%v", p.Adapt014 || p.Recorded))
@@ -517,14 +590,17 @@ func c20Run(t *testing.T, st *vstat.Stats, p c20Plan) *viol {
 	if p.Restart {
 		st.Class("machines-restarted-after-reinit")
 	}
+	if p.Aborted > 0 && !p.Recorded {
+		st.Class(fmt.Sprintf("dump-begins-with-aborted-attempt:%d", p.Aborted))
+	}
 	if p.CLI && !p.Recorded && os.Getenv("VERIF_BUILD") != "" {
 		st.Class("via-compiled-CLIs")
 	}
 	if p.Recorded {
 		st.Class("recorded-0.1.4-log")
 	}
-	if len(p.Tape) > 0 || p.Junk > 0 || p.Batches > 0 || p.Recorded {
-		st.NonTrivial(fmt.Sprintf("%d/%d/%v/%d/%d/%v/%v", p.N, p.T, p.Tape, p.Batches, p.Junk, p.Adapt014, p.Recorded))
+	if len(p.Tape) > 0 || p.Junk > 0 || p.Batches > 0 || p.Recorded || p.Aborted > 0 {
+		st.NonTrivial(fmt.Sprintf("%d/%d/%v/%d/%d/%v/%v/%d", p.N, p.T, p.Tape, p.Batches, p.Junk, p.Adapt014, p.Recorded, p.Aborted))
 		st.SampleEvery(10, map[string]any{"n": p.N, "t": p.T, "tape_length": len(p.Tape), "later_batches_in_log": p.Batches, "junk_in_log": p.Junk, "adapted_from_0.1.4": p.Adapt014 || p.Recorded, "recorded_log": p.Recorded,
 			"outcome": "all nodes signing-idle, same polynomial and shares, hash equal on all nodes, batch signed afterwards verifies under the original group key"})
 	}
